@@ -163,6 +163,18 @@ type ClientOp struct {
 type TokenSpec struct {
 	Ans  AnswerSpec `json:"ans"`
 	Acts []UpAction `json:"acts"` // per arrival; the last repeats
+	// Ans2, when set, replaces Ans from arrival number Ans2From on (a
+	// refresh that turns negative, a changed answer, ...).
+	Ans2     *AnswerSpec `json:"ans2,omitempty"`
+	Ans2From int         `json:"ans2_from,omitempty"`
+}
+
+// SpecFor returns the answer spec used for the given arrival number.
+func (t *TokenSpec) SpecFor(arrival int) *AnswerSpec {
+	if t.Ans2 != nil && arrival >= t.Ans2From {
+		return t.Ans2
+	}
+	return &t.Ans
 }
 
 type AnswerSpec struct {
